@@ -185,6 +185,11 @@ func (c *Config) Child(name string, idx int, opts ...Option) (*Config, error) {
 		return nil, err
 	}
 	c, fail := v.toConfig(O)
+	if fail == nil && isNil(v) {
+		// the setting is null: the empty config returned for it is not part of
+		// this configuration and does not claim the setting's place
+		c.ctx = context{}
+	}
 	return c, convertErr(O, v, fail, "object")
 }
 
